@@ -89,7 +89,7 @@ func init() {
 	ck := &run.Check{
 		Prop:  "C03",
 		Level: "exploration",
-		Rule: "free-running concurrent runs: 2-6 writers with disjoint key prefixes execute 40-150 (thorough 100-400) self-identifying batches (a marker = batch number plus a pseudo-random subset of payload keys set/deleted, in the top-level collection and in 0-2 child collections, all in one batch) while 1-2 full readers (every key by Get and by iteration, child snapshots), 1-3 hammer readers (marker + one payload + one child key per snapshot) and a direct Collection.Get reader run; MaxPreMergerBatches in {1,2,3} so writers block; merger, persister and compactor run freely with seeded delays injected at the hook points between critical sections. Online interval oracle per snapshot and writer: the projection equals the state after exactly the marker's number of that writer's batches (else torn batch); marker >= batches returned (or observed by any earlier-finished snapshot) before the call started; marker <= batches invoked when the call returned; never decreasing per reader. One run in four is re-checked offline with porcupine (register per writer); disagreement = harness error class. distinct_nontrivial = distinct (backing | API call overlapping a background phase | blocked writers / compactions / children / options) units observed.",
+		Rule: "free-running concurrent runs: 2-6 writers with disjoint key prefixes execute 40-150 (thorough 100-400) self-identifying batches (a marker = batch number plus a pseudo-random subset of payload keys set/deleted, in the top-level collection and in 0-2 child collections, all in one batch; in half of the runs with child collections a third of each writer's batches hold no top-level operation at all, and the prefix a snapshot shows for a writer is the largest marker over the top level and the children) while 1-2 full readers (every key by Get and by iteration, child snapshots), 1-3 hammer readers (marker + one payload + one child key per snapshot) and a direct Collection.Get reader run; MaxPreMergerBatches in {1,2,3} so writers block; merger, persister and compactor run freely with seeded delays injected at the hook points between critical sections. Online interval oracle per snapshot and writer: the projection equals the state after exactly the marker's number of that writer's batches (else torn batch); marker >= batches returned (or observed by any earlier-finished snapshot) before the call started; marker <= batches invoked when the call returned; never decreasing per reader. One run in four is re-checked offline with porcupine (register per writer); disagreement = harness error class. distinct_nontrivial = distinct (backing | API call overlapping a background phase | blocked writers / compactions / children / options) units observed.",
 		MinUnits:    10,
 		Assumptions: []string{"cross-writer atomicity is not demanded (the property is per writer)", "wall-clock is used only as a progress watchdog (no writer completed a batch for 60 s); a run still pending then is a violation only if every moss goroutine is blocked (quiescent deadlock), otherwise inconclusive"},
 	}
@@ -183,7 +183,7 @@ func init() {
 		Prop:      "C17",
 		Level:     "exploration",
 		NeedsRace: true,
-		Rule: "the C03 concurrent driver (writers on disjoint keys incl. child collections, full / hammer / direct-Get readers with their oracles active) plus a goroutine issuing Stats, Histograms, Options, asynchronous NotifyMerger (plain and mergeAll), Store.Stats, Store.Histograms, Store.Snapshot + Get + iterator, runs inside a binary built with -race (which also enables checkptr for the unsafe slice conversions on mmapped segments) over the option matrix DeferredSort x CachePersisted x backing {none, mossStore with small compaction levels, custom lower level} x child collections, with seeded delays at the hook points; Close only after the user goroutines have joined. GORACE=halt_on_error=0 log_path=...; every 'WARNING: DATA RACE' block in the log with a moss frame is a violation, de-duplicated by the innermost moss functions of the two accesses; blocks without moss frames are counted as harness races. distinct_nontrivial = distinct (backing | API call overlapping a background phase | options) units observed.",
+		Rule: "the C03 concurrent driver (writers on disjoint keys incl. child collections, full / hammer / direct-Get readers with their oracles active) plus a goroutine issuing Stats, Histograms, Options, asynchronous NotifyMerger (plain and mergeAll), Store.Stats, Store.Histograms, Store.Snapshot + Get + iterator, Store.SnapshotPrevious walks up to three footers back (with child snapshots), runs inside a binary built with -race (which also enables checkptr for the unsafe slice conversions on mmapped segments) over the option matrix DeferredSort x CachePersisted x backing {none, mossStore with small compaction levels, custom lower level} x child collections, with seeded delays at the hook points; Close only after the user goroutines have joined. GORACE=halt_on_error=0 log_path=...; every 'WARNING: DATA RACE' block in the log with a moss frame is a violation, de-duplicated by the innermost moss functions of the two accesses; blocks without moss frames are counted as harness races. distinct_nontrivial = distinct (backing | API call overlapping a background phase | options) units observed.",
 		MinUnits:    10,
 		Assumptions: []string{"the race detector only sees races the run exercises", "concurrent Close is not part of this workload (C16)"},
 		WorkerTimeout: func(tier string) time.Duration {
